@@ -103,4 +103,7 @@ def check(ctx, run):
     r10_3(ctx, run)
     r10_4(ctx, run)
     recursion.rrec(ctx, run, 'R10.5', ROOTS, {'document'}, 'recursion on the nesting depth of untrusted input', floor=2)
+    import boundaries
+    _bf = lambda p_: p_.startswith(('de::', 'number::Number::decode', 'parser::'))
+    boundaries.check(ctx, run, 'R10.6', [p_ for p_ in sorted(boundaries.load_baseline() or {}) if _bf(p_)], 'the decoder rejects input')
     return report.finish(run, level='other', explanation=EXPLANATION, assumptions=ASSUME)
